@@ -195,7 +195,10 @@ Fold(fs, ops, k) == IF k = 0 THEN fs ELSE Apply(Fold(fs, ops, k - 1), ops, k)
 KnownOps(fs, ops) == SelectSeq(ops, LAMBDA o : o.f \in DOMAIN fs /\ (o.g = "" \/ o.g \in DOMAIN fs))
 PostRecover(sc, fs) == LET ops == KnownOps(fs, sc.recover) IN Fold(Handover(fs), ops, Len(ops))
 \* files that exist only as temporaries of an interrupted writer may stay torn if the follow-up never touches them
-RecoveryClean(sc, fs) == \A n \in DOMAIN fs : ~(PostRecover(sc, fs)[n].st = "garbled")
+\* (data can land behind stale content only through an open without truncation: without an `append`
+\* in the follow-up there is nothing to fold)
+RecoveryClean(sc, fs) == \/ \A j \in 1..Len(sc.recover) : sc.recover[j].op # "append"
+                         \/ LET post == PostRecover(sc, fs) IN \A n \in DOMAIN fs : post[n].st # "garbled"
 
 \* scripts say which classes carry a non-default value (usesM, usesE; class d always does)
 GenAllowed(sc, v) == v \in {"old", "new"} \/ (v = "default" /\ sc.fresh)
